@@ -9,10 +9,13 @@ import (
 	"crypto/sha256"
 	"database/sql"
 	"encoding/hex"
+	"encoding/json"
 	"errors"
 	"fmt"
 	"io"
 	"log/slog"
+	"net"
+	"net/http"
 	"os"
 	"path/filepath"
 	"sort"
@@ -142,7 +145,10 @@ type Scn struct {
 	Remote     Remote // if set, litestream ops are forwarded to a worker process
 	RemoteDead bool   // the worker died (killed) during an op
 	DistinctMS bool
-	TickGapMS  int64       // minimum distance in ms between file-creating operations when DistinctMS is set
+	TickGapMS  int64              // minimum distance in ms between file-creating operations when DistinctMS is set
+	srv        *litestream.Server // control server of the Store (started lazily by the SD operation)
+	srvStore   *litestream.Store  // the Store srv was created for
+	srvHTTP    *http.Client
 	rfArmed    string      // replica upload fault (RF:mode) pending: "" | before | mid
 	lfArmed    func() bool // local staging fault (LF:mode) still pending?
 	lfMode     string
@@ -254,6 +260,10 @@ func (s *Scn) Destroy() {
 		return
 	}
 	s.closed = true
+	if s.srv != nil {
+		s.srv.Close()
+		s.srv = nil
+	}
 	s.appClose()
 	if s.DB != nil {
 		s.DB.VerifAbandon()
@@ -908,4 +918,41 @@ func (c *rfClient) WriteLTXFile(ctx context.Context, level int, minTXID, maxTXID
 		_, _ = io.ReadFull(r, buf)
 	}
 	return nil, errRFInjected
+}
+
+// syncViaServer issues the `sync -wait` request as the command-line client does: POST /sync on the Store's control
+// socket (server.go handleSync -> Store.SyncDB). Returns nil when the request was answered 200.
+func (s *Scn) syncViaServer(ctx context.Context) error {
+	if s.srv == nil || s.srvStore != s.Store {
+		if s.srv != nil {
+			s.srv.Close()
+		}
+		srv := litestream.NewServer(s.Store)
+		srv.SocketPath = filepath.Join(s.Dir, fmt.Sprintf("ctl-%d.sock", dirSeq.Add(1)))
+		if err := srv.Start(); err != nil {
+			return fmt.Errorf("harness: control server: %w", err)
+		}
+		sock := srv.SocketPath
+		s.srv, s.srvStore = srv, s.Store
+		s.srvHTTP = &http.Client{Transport: &http.Transport{DialContext: func(ctx context.Context, _, _ string) (net.Conn, error) {
+			var d net.Dialer
+			return d.DialContext(ctx, "unix", sock)
+		}}}
+	}
+	body, _ := json.Marshal(map[string]any{"path": s.DBPath, "wait": true})
+	req, err := http.NewRequestWithContext(ctx, "POST", "http://litestream/sync", bytes.NewReader(body))
+	if err != nil {
+		return err
+	}
+	req.Header.Set("Content-Type", "application/json")
+	resp, err := s.srvHTTP.Do(req)
+	if err != nil {
+		return err
+	}
+	defer resp.Body.Close()
+	b, _ := io.ReadAll(resp.Body)
+	if resp.StatusCode != 200 {
+		return fmt.Errorf("sync request: HTTP %d: %s", resp.StatusCode, strings.TrimSpace(string(b)))
+	}
+	return nil
 }
